@@ -29,6 +29,7 @@ require (
 	go.uber.org/goleak v1.1.12
 	golang.org/x/exp v0.0.0-20221215174704-0915cd710c24
 	golang.org/x/sys v0.2.0
+	golang.org/x/text v0.5.0
 	golang.org/x/time v0.3.0
 	google.golang.org/genproto v0.0.0-20211118181313-81c1377c94b1
 	google.golang.org/grpc v1.50.1
@@ -73,6 +74,5 @@ require (
 	go.uber.org/multierr v1.6.0 // indirect
 	go.uber.org/zap v1.17.0 // indirect
 	golang.org/x/net v0.0.0-20220225172249-27dd8689420f // indirect
-	golang.org/x/text v0.5.0 // indirect
 	gopkg.in/yaml.v3 v3.0.1 // indirect
 )
